@@ -47,6 +47,7 @@ def items(tier):
         out.append({"name": "fastpath|h%d|%s|din%d|dout%d" % (hid, act, din, dout), "kind": "fast", "hid": hid, "act": act,
                     "din": din, "dout": dout, "tier": tier, "cost": 3})
     out.append({"name": "histories", "kind": "hist", "tier": tier, "cost": 5})
+    out.append({"name": "functionset-two-variables", "kind": "fset2", "tier": tier, "cost": 2})
     for copied in (True, False):
         out.append({"name": "trunk-variable-order|copied=%s" % copied, "kind": "trunkorder", "copied": copied, "tier": tier, "cost": 2})
     return out
@@ -117,6 +118,43 @@ def run_item(item):
         seen.add(key)
         res["violations"].append({"key": key, "what": "%s: %s" % (item["name"], what), "detail": {"item": item["name"]}})
     tier = item["tier"]
+    if item["kind"] == "fset2":
+        # input functions of TWO variables (x, t); the discretisation points are stored as (t, x): the branch input built
+        # from the function set equals the by-name values f_k(x_i, t_i) supplied as a tensor
+        import torchphysics as tp_
+        X1, T1 = Space({"x": 1}), Space({"t": 1})
+        Ix, It = Interval(X1, 0, 1), Interval(T1, 0, 2)
+        for order in ("tx", "xt"):
+            for F in (1, 3):
+                cfg = "discretisation stored as %s, %d functions" % (order, F)
+                res["states"].append(item["name"] + "|" + cfg)
+                torch.manual_seed(31)
+                fs = FunctionSpace(Ix * It, Space({"e": 1}))
+                dsamp = ((GridSampler(It, 2) * GridSampler(Ix, 3)) if order == "tx" else (GridSampler(Ix, 3) * GridSampler(It, 2))).make_static()
+                trunk = FCTrunkNet(Space({"y": 1}), hidden=(3,))
+                branch = FCBranchNet(fs, discretization_sampler=dsamp, hidden=(3,))
+                net = DeepONet(trunk, branch, output_space=Space({"u": 1}), output_neurons=2)
+                fset = CustomFunctionSet(fs, GridSampler(Interval(Space({"k": 1}), 1, 2), F), lambda k, x, t: k * x + 10.0 * t + k * k)
+                pts = dsamp.sample_points()
+                xs, ts = pts.coordinates["x"], pts.coordinates["t"]
+                ks = GridSampler(Interval(Space({"k": 1}), 1, 2), F).sample_points().as_tensor.reshape(F, 1, 1)
+                vals = ks * xs.reshape(1, -1, 1) + 10.0 * ts.reshape(1, -1, 1) + ks * ks
+                y0 = locations(3, 1)
+                res["evals"] += 2
+                res["transitions"] += 2
+                try:
+                    with torch.no_grad():
+                        o1 = net(Points(y0.clone(), Space({"y": 1})), fset).as_tensor
+                        o2 = net(Points(y0.clone(), Space({"y": 1})), vals.clone()).as_tensor
+                except Exception as e:
+                    viol("C09|error|%s|functionset-two-variables" % type(e).__name__, "%s raised %s: %s" % (cfg, type(e).__name__, str(e)[:120]))
+                    continue
+                if o1.shape != o2.shape or not torch.allclose(o1, o2, rtol=1e-5, atol=1e-6):
+                    viol("C09|functionset-variable-order", "%s: the function set as branch input gives another output than its by-name values f_k(x_i, t_i) (max difference %.3g)" % (
+                        cfg, float((o1 - o2).abs().max()) if o1.shape == o2.shape else float("nan")))
+                else:
+                    res["outcomes"].append(item["name"] + "|" + cfg)
+        return res
     if item["kind"] == "trunkorder":
         # a trunk over TWO named variables (x, y): locations whose columns are stored as (y, x) give the same output
         copied = item["copied"]
